@@ -41,7 +41,10 @@ def cells(tier, seed):
                     'colour': colour, 'shape': [rnd.choice(SIDES), rnd.choice(SIDES)], 'N': rnd.choice([1, 2]),
                     'C': 3 if colour else rnd.choice([1, 2]),
                     'kind': rnd.choice(['randn', 'zeros', 'impulse', 'sparse', 'const', 'big', 'small', 'randn']),
-                    'cot': rnd.choice(['randn', 'ones', 'onehot'])})
+                    'cot': rnd.choice(['randn', 'ones', 'onehot']),
+                    # first-order layers also exist in 'zero' padding mode (the q-shift stages of the
+                    # second-order layer implement symmetric extension only)
+                    'mode': rnd.choice(['symmetric', 'symmetric', 'zero']) if order == 1 else 'symmetric'})
     for i in range(20 if tier == 'quick' else 200):
         out.append({'order': 0, 'magbias': rnd.choice([1e-6, 1e-2, 1.0, 0.0]), 'shape': [rnd.choice([1, 3, 7]), rnd.choice([1, 4, 9])],
                     'kind': rnd.choice(['randn', 'zeros', 'big', 'small']), 'i': i})
